@@ -242,6 +242,7 @@ namespace Pistache
 
             explicit Timeout(Timeout&& other)
                 : handler(other.handler)
+                , version(other.version)
                 , transport(other.transport)
                 , armed(other.armed)
                 , timerFd(other.timerFd)
